@@ -28,8 +28,9 @@ PSib == { <<"/", "a", "/", "LOW", "/", "a">>, <<"/", "a", "/", "LOW", "/", "b">>
 ProbesSib == { <<>>, <<"/", "a", "/", "b", "/", "a">>, <<"/", "a", "/", "b", "/", "b">>, <<"/", "a", "/", "a", "/", "a">>, <<"/", "a", "/", "b">>, <<"/", "a", "/", "b", "/", "a", "a">>,
                <<"/", "a", "/", "a", "b", "/", "b">>, <<"/", "a", "/", "b", "/">> }
 \* five insertions under one prefix, one pattern nested under another: trees three levels deep whose inner node is the last child
-PNest == { <<"/", "a", "/", "a">>, <<"/", "a", "/", "b">>, <<"/", "a", "/", "A">>, <<"/", "a", "/", "a", "/", "b">>, <<"/", "a", "/", ".">> }
-ProbesNest == { <<>>, <<"/", "a", "/", "a">>, <<"/", "a", "/", "b">>, <<"/", "a", "/", "A">>, <<"/", "a", "/", "a", "/", "b">>, <<"/", "a", "/", ".">>, <<"/", "a", "/">> }
+\* ("/a/" [ A, "/a/b/" [ b, "/a/b/a" [ a, a/b ] ], . ] : two prefix levels and a pattern nested under another)
+PNest == { <<"/", "a", "/", "b", "/", "a">>, <<"/", "a", "/", "b", "/", "b">>, <<"/", "a", "/", "A">>, <<"/", "a", "/", "b", "/", "a", "/", "b">>, <<"/", "a", "/", ".">> }
+ProbesNest == { <<>>, <<"/", "a", "/", "b", "/", "a">>, <<"/", "a", "/", "b", "/", "b">>, <<"/", "a", "/", "A">>, <<"/", "a", "/", "b", "/", "a", "/", "b">>, <<"/", "a", "/", ".">>, <<"/", "a", "/", "b", "/">> }
 \* (the nest universe is cut down to insertion orders: every pattern has its own id, every operation but the last is an insertion)
 NestSeq == SetToSeq(PNest)
 IdOfPat(p) == "i" \o ToString(CHOOSE k \in 1..Len(NestSeq) : NestSeq[k] = p)
